@@ -100,7 +100,7 @@ fn replay_one(e: &Value, st: &mut Stats) -> Vec<Value> {
     let class = classes.join("+");
     *st.by_class.entry(class.clone()).or_default() += 1;
     features(&script, alts, &mut st.features);
-    let obs = run::run_scenario(&script, &e["o"], &e["dots"]);
+    let obs = run::run_scenario(&script, &e["o"], &e["dots"], e["env"].as_str().unwrap_or(""));
     st.runs += 1;
     if class == "ok" {
         let a0 = &alts[0];
@@ -114,7 +114,7 @@ fn replay_one(e: &Value, st: &mut Stats) -> Vec<Value> {
             st.mismatches += 1;
             vec![json!({
                 "key": {"dir": "spec->impl", "fam": e["fam"], "symptom": symptom, "script": script.join("\n"),
-                        "opts": opts_text(&e["o"])},
+                        "opts": opts_text(&e["o"]), "env": e["env"]},
                 "detail": format!("{symptom}: what the shell shows is none of the {n_alts} outcome(s) XTrace.tla allows"),
                 "script": script, "o": e["o"], "dots": e["dots"], "sc": e["sc"], "alts": alts, "obs": obs.to_json(),
             })]
@@ -135,7 +135,8 @@ fn opts_text(o: &Value) -> String {
 fn record_of(sc: &Value, st: &mut Stats) -> Value {
     let script = render::script(sc);
     let dots = render::dots(sc);
-    let obs = run::run_scenario(&script, &sc["o"], &dots);
+    let env = render::env_text(sc);
+    let obs = run::run_scenario(&script, &sc["o"], &dots, &env);
     st.n += 1;
     st.runs += 1;
     let mut f = BTreeMap::new();
@@ -233,7 +234,7 @@ fn main() {
             let lines: Vec<String> = text.lines().map(|s| s.to_string()).collect();
             let o = json!({"x": args.iter().any(|a| a == "-x"), "v": args.iter().any(|a| a == "-v"),
                            "n": args.iter().any(|a| a == "-n"), "i": args.iter().any(|a| a == "-i")});
-            let obs = run::run_scenario(&lines, &o, &json!([]));
+            let obs = run::run_scenario(&lines, &o, &json!([]), opt(&args, "--env").unwrap_or(""));
             println!("outcome={} status={} reached={} xt={} vb={}", obs.outcome, obs.status, obs.reached, obs.xt, obs.vb);
             println!("--- stdout\n{}", obs.out);
             println!("--- stderr\n{}", obs.err);
